@@ -1498,3 +1498,14 @@ package analysis
 //@   ensures forall n string :: old(n in dom(opts.Spec.spec.Definitions)) && old(referenced(opts.Spec, n)) ==> n in dom(opts.Spec.spec.Definitions)
 //@   ensures forall n in dom(opts.Spec.spec.Definitions) :: old(referenced(opts.Spec, n))
 //@   ensures result <==> (exists n string :: old(n in dom(opts.Spec.spec.Definitions)) && !(n in dom(opts.Spec.spec.Definitions)))
+//@   loop 1: modifies map expected
+//@   loop 1: invariant expected != nil && fresh(expected) && (forall k string :: (k in dom(expected)) <==> (k in seen)) && (forall k in seen :: k in dom(opts.Spec.spec.Definitions))
+//@   loop 2: modifies map expected, heap spec.Ref
+//@   loop 2: invariant expected != nil && fresh(expected)
+//@   loop 2: invariant forall n string :: (n in dom(expected)) <==> (n in dom(opts.Spec.spec.Definitions) && !(exists k in seen :: defTarget(opts.Spec.references.schemas[k], n)))
+//@   loop 2: invariant forall k in seen :: k in dom(opts.Spec.references.schemas)
+//@   loop 3: modifies map opts.Spec.spec.Definitions
+//@   loop 3: invariant forall n string :: (n in dom(opts.Spec.spec.Definitions)) <==> (old(n in dom(opts.Spec.spec.Definitions)) && !(n in seen))
+//@   loop 3: invariant forall n in dom(opts.Spec.spec.Definitions) :: opts.Spec.spec.Definitions[n] == old(opts.Spec.spec.Definitions[n])
+//@   loop 3: invariant forall n in seen :: n in dom(expected)
+//@   loop 3: invariant hasRemoved <==> (exists n string :: n in seen)
